@@ -75,13 +75,14 @@ func checkC06(c *Ctx, r *Report) {
 		p := fn.Params[1]
 		var serve ssa.CallInstruction
 		for _, ci := range callsTo(fn, false, "bytes.Buffer.Read") {
-			if strings.HasSuffix(pathOf(ci.Common().Args[0]), ".state.buf") && ci.Common().Args[1] == ssa.Value(p) {
+			// p itself, or read back from the variable it was spilled to when a closure captures it (ip_h2.go)
+			if strings.HasSuffix(pathOf(ci.Common().Args[0]), ".state.buf") && h2ParamValue(ci.Common().Args[1]) == p {
 				serve = ci
 			}
 		}
 		first := true
 		for _, ci := range allCalls(fn) {
-			if strings.HasPrefix(callName(ci.Common()), "lzhuf.Reader.decode") && serve != nil && !instrDominates(serve, ci) {
+			if h2Decodes(ci) && serve != nil && !instrDominates(serve, ci) {
 				first = false
 			}
 		}
@@ -89,8 +90,9 @@ func checkC06(c *Ctx, r *Report) {
 			"d.state.buf.Read(p) dominates every decode step", "decoding can resume before the bytes held back by the previous call were delivered: output is reordered or lost")
 		// the split of a match between p and the hold-back buffer
 		o := r.Add("C06-holdback", where, "match bytes go to p or to the hold-back buffer", c.pos(fn.Pos()))
-		// in Read itself or in a helper that receives Read's buffer at every call (ip_g7.go)
-		good, inHelper := c.g7HoldbackSplit(fn)
+		// in Read itself, in a helper that receives Read's buffer at every call (ip_g7.go) or in a local
+		// closure Read calls; the test may be written either way round (ip_h2.go)
+		good, inHelper := c.h2HoldbackSplit(fn)
 		if good {
 			o.OK("on n < len(p) the byte is stored in p[n], otherwise the same byte is appended to d.state.buf%s", inHelper)
 		} else {
